@@ -13,7 +13,8 @@ from .interp import Interp, ExtV, RangeV, ZipV, ChainEnv, BUILTIN_CLASSES, set_u
 has_attr = z3.Function("has_attr", I, S, B)          # capability of an abstract object: attribute present
 accepts_kw = z3.Function("accepts_kw", I, S, S, B)   # target's method accepts that keyword
 
-SORTS = {"val": Val, "int": I, "bool": B, "str": S, "seq": SeqV, "set": SetMap, "map": KwMap, "hist": Hist, "event": Event, "ref": I}
+SORTS = {"val": Val, "int": I, "bool": B, "str": S, "seq": SeqV, "set": SetMap, "map": KwMap, "hist": Hist, "event": Event, "ref": I,
+         "harr": so.HistArr, "darr": so.DictArr}
 
 BUILTIN_KIND_TAGS = ("list", "set", "frozenset", "anyset", "dict", "str", "bytes", "tuple", "int", "bool", "none", "seq", "iter")
 
@@ -72,6 +73,8 @@ class Calls(Interp):
                 lib = self.lib_contract(k, attr)
                 if lib is not None:
                     return BoundV(obj.recv, lib, attr)
+                if isinstance(k, str) and attr == "__init__" and (k.split(".")[-1] in EXC_BASES or k in ("object",)):
+                    return BuiltinV("noop")       # BaseException.__init__ / object.__init__: `args` is set at allocation
                 self.unsupported(node, "super().%s not found (base %r)" % (attr, k))
             if isinstance(m, tuple):
                 self.unsupported(node, "super() property")
@@ -215,7 +218,15 @@ class Calls(Interp):
             saved_cls = self.spec_cls
             self.spec_cls = c
             try:
-                v = self.eval_const(c.assigns[attr], c.module, node)
+                ex = c.assigns[attr]
+                if isinstance(ex, ast.Call) and isinstance(ex.func, ast.Name) and ex.func.id == "object" and not ex.args:
+                    # class-level sentinel `X = object()`: one pre-existing object, unlike anything the caller can hold
+                    cst = z3.Const("sentinel!%s.%s" % (c.name, attr), I)
+                    self.assume(z3.And(cst >= 0, cst < (self.heap_alloc0 if getattr(self, "heap_alloc0", None) is not None else self.comp("$alloc"))))
+                    self.assume(so.typeof(cst) == self.cids.cid("object"))
+                    v = SV(Val.ref(cst), "object")
+                else:
+                    v = self.eval_const(ex, c.module, node)
                 extra = c.subscript_assigns.get(attr)
                 if extra:
                     items = dict(v.items) if isinstance(v, StaticDictV) else {}
@@ -706,7 +717,11 @@ class Calls(Interp):
                 if not exceptional:
                     res = self.fresh_result(c.returns)
                     env2 = dict(env)
-                    env2["result"] = res
+                    env2["ret"] = res
+                    if "result" not in env or func is None and c.signature is None:
+                        env2["result"] = res
+                    elif "result" not in self._param_names(c, func):
+                        env2["result"] = res
                     for e in c.ensures:
                         self.assume(self.spec_bool(parse_expr(e), env2))
                     return res
@@ -722,6 +737,15 @@ class Calls(Interp):
                 self.old_stack.pop()
         finally:
             self.spec_cls = saved_cls
+
+    def _param_names(self, c, func):
+        if func is not None:
+            a = func.node.args
+            return {p.arg for p in a.posonlyargs + a.args + a.kwonlyargs}
+        if c.signature:
+            fake = ast.parse("def _f(%s): pass" % c.signature).body[0]
+            return {p.arg for p in fake.args.args}
+        return set()
 
     def fresh_result(self, tag):
         kind, arg = parse_tag(tag)
@@ -845,9 +869,43 @@ class Calls(Interp):
             return BoolSV(True)
         self.unsupported(node, "callable()")
 
+    def dyn_attr_name(self, v):
+        """None when the attribute name is a literal, else its string term"""
+        if isinstance(v, SV):
+            t = z3.simplify(v.term)
+            if t.decl().name() == "strv" and z3.is_string_value(t.arg(0)):
+                return None
+            return v.term
+        return None
+
     def bi_getattr(self, args, kwargs, node):
+        dyn = self.dyn_attr_name(args[1])
+        if dyn is not None:
+            # getattr(obj, <computed name>): the object's dynamic attribute table
+            m = self.comp("$attrs")[self.refof(args[0], node)]
+            t = m[dyn]
+            if len(args) > 2:
+                if self.spec_mode:
+                    return self.ite(t != Val.absent, SV(t, None), args[2], node)
+                if self.branch(t != Val.absent, "dyn attr present L%d" % getattr(node, "lineno", 0)):
+                    return SV(t, None)
+                return args[2]
+            if not self.spec_mode and not self.branch(t != Val.absent, "dyn attr present L%d" % getattr(node, "lineno", 0)):
+                self.raise_builtin("AttributeError", node)
+            return SV(t, None)
         name = self.const_str(args[1], node)
         return self.get_attr(args[0], name, node, default=args[2] if len(args) > 2 else None)
+
+    def bi_delattr(self, args, kwargs, node):
+        dyn = self.dyn_attr_name(args[1])
+        if dyn is None:
+            self.unsupported(node, "delattr with literal name")
+        r = self.refof(args[0], node)
+        A = self.comp("$attrs")
+        if not self.branch(A[r][dyn] != Val.absent, "delattr present L%d" % getattr(node, "lineno", 0)):
+            self.raise_builtin("AttributeError", node)
+        self.set_comp("$attrs", z3.Store(A, r, z3.Store(A[r], dyn, Val.absent)), r)
+        return SV(Val.none, "none")
 
     def bi_hasattr(self, args, kwargs, node):
         name = self.const_str(args[1], node)
@@ -872,6 +930,12 @@ class Calls(Interp):
         self.unsupported(node, "hasattr on %r" % (obj,))
 
     def bi_setattr(self, args, kwargs, node):
+        dyn = self.dyn_attr_name(args[1])
+        if dyn is not None:
+            r = self.refof(args[0], node)
+            A = self.comp("$attrs")
+            self.set_comp("$attrs", z3.Store(A, r, z3.Store(A[r], dyn, self.to_term(args[2], node))), r)
+            return SV(Val.none, "none")
         name = self.const_str(args[1], node)
         self.set_attr(args[0], name, args[2], node)
         return SV(Val.none, "none")
@@ -1051,6 +1115,9 @@ class Calls(Interp):
                 tot = tot + self.as_int(x, node)
             return SV(Val.intv(tot), "int")
         self.unsupported(node, "sum()")
+
+    def bi_noop(self, args, kwargs, node):
+        return SV(Val.none, "none")
 
     def bi_print(self, args, kwargs, node):
         return SV(Val.none, "none")
@@ -1530,6 +1597,8 @@ class Calls(Interp):
             return v.e
         if s == "ref":
             return self.refof(v, node)
+        if s in ("harr", "darr"):
+            return v.t
         raise SpecError("sort %s" % s)
 
     def from_sort(self, t, s):
@@ -1553,6 +1622,8 @@ class Calls(Interp):
             return PEvent(t)
         if s == "ref":
             return SV(Val.ref(t), None)
+        if s in ("harr", "darr"):
+            return PRaw(t)
         raise SpecError("sort %s" % s)
 
     def sp_implies(self, args, kwargs, node):
@@ -1704,6 +1775,21 @@ class Calls(Interp):
     def sp_hsel(self, args, kwargs, node):
         return PHist(args[0].t[self.refof(args[1], node)])
 
+    def sp_ATTRS(self, args, kwargs, node):
+        return PRaw(self.comp("$attrs"))
+
+    def sp_attrs_of(self, args, kwargs, node):
+        return PMap(self.comp("$attrs")[self.refof(args[0], node)])
+
+    def sp_attr_set(self, args, kwargs, node):
+        """ATTRS with obj.name := value (value absent() deletes)"""
+        A = args[0].t
+        r = self.refof(args[1], node)
+        return PRaw(z3.Store(A, r, z3.Store(A[r], self.to_term(args[2], node), self.to_term(args[3], node))))
+
+    def sp_attr_get(self, args, kwargs, node):
+        return SV(args[0].t[self.refof(args[1], node)][self.to_term(args[2], node)], None)
+
     def sp_hstore(self, args, kwargs, node):
         """HIST array with one object's history replaced"""
         return PRaw(z3.Store(args[0].t, self.refof(args[1], node), args[2].h))
@@ -1726,6 +1812,14 @@ class Calls(Interp):
     def sp_distinct(self, args, kwargs, node):
         ts = [self.to_term(a, node) for a in args]
         return BoolSV(z3.Distinct(*ts) if len(ts) > 1 else z3.BoolVal(True))
+
+    def sp_frame_ok(self, args, kwargs, node):
+        """every object that existed at function entry still has its entry value in this heap component"""
+        name = self.const_str(args[0], node)
+        r = z3.Int("fr_%d" % so._fresh[0])
+        so._fresh[0] += 1
+        pre = _HeapView(self.old_stack[0])
+        return BoolSV(z3.ForAll([r], z3.Implies(z3.And(r >= 0, r < self.pre_alloc), self.comp(name)[r] == self.comp(name, pre)[r])))
 
     def sp_unchanged(self, args, kwargs, node):
         """heap component (by name) unchanged since old"""
